@@ -1,7 +1,7 @@
 (* C14 — Schema validation agrees with the specification.
    The agreement of the CODE with sv_schema_valid is what the correspondence check tests; it is not a
    theorem (strength: partial by construction).  The theorems here make the oracle itself trustworthy. *)
-From ApolloVerif Require Import Base.Chars Ast.Ast Schema.Model Schema.Valid.
+From ApolloVerif Require Import Base.Chars Ast.Ast Schema.Model Schema.Valid Schema.Consistent Schema.ValidProofs.
 
 Theorem C14_verdict_decomposes : forall p s,
   sv_schema_valid p s = true <-> (forall r, In r (sv_rules p) -> r s = true).
@@ -9,3 +9,10 @@ Proof. intros p s. unfold sv_schema_valid. apply forallb_forall. Qed.
 Check C14_verdict_decomposes : forall p s,
   sv_schema_valid p s = true <-> (forall r, In r (sv_rules p) -> r s = true).
 Print Assumptions C14_verdict_decomposes.
+
+(* implements_ok is the transcription of spec 3.6 IsValidImplementation (with IsValidImplementationFieldType);
+   ImplementsSpec is its declarative statement (Schema/Consistent.v) *)
+Theorem C14_interface_contract : forall s t i, sv_implements_ok s t i = true <-> ImplementsSpec s t i.
+Proof. exact sv_implements_ok_spec. Qed.
+Check C14_interface_contract : forall s t i, sv_implements_ok s t i = true <-> ImplementsSpec s t i.
+Print Assumptions C14_interface_contract.
